@@ -30,8 +30,13 @@ def sites(fn):
     """[(description, apply(node_copy) -> None)] over a function node; each entry addresses nodes by walk index."""
     out = []
     nodes = list(ast.walk(fn))
+    # bodies of nested functions are functions under contract of their own (closures): not mutated through the outer one
+    inner = set()
+    for n in nodes:
+        if n is not fn and isinstance(n, (ast.FunctionDef, ast.AsyncFunctionDef, ast.Lambda)):
+            inner |= {id(x) for x in ast.walk(n) if x is not n}
     for i, n in enumerate(nodes):
-        if n is fn:
+        if n is fn or id(n) in inner:
             continue
         ln = getattr(n, "lineno", 0)
         if isinstance(n, ast.Compare) and len(n.ops) == 1 and type(n.ops[0]) in FLIP:
